@@ -184,29 +184,44 @@ fn register_for<A: InputAction>(world: &mut World, aid: usize)
 where
     A::Output: Into<ActionValue>,
 {
-    world.add_observer(move |t: Trigger<Started<A>>, log: Res<SharedLog>, mut commands: Commands, reacts: Option<ResMut<Reactions>>, slots: Option<Res<Slots>>| {
+    world.add_observer(move |mut t: Trigger<Started<A>>, log: Res<SharedLog>, mut commands: Commands, reacts: Option<ResMut<Reactions>>, slots: Option<Res<Slots>>| {
         let e = t.event();
         log.push(LogItem::Ev { target: t.entity(), aid, kind: "EStarted", value: e.value.into(), state: e.state, elapsed: None, fired: None });
+        // every recipient gets its OWN copy of the event: what this observer does to its copy (legal through
+        // Trigger::event_mut) must not show in the payload any other recipient sees
+        t.event_mut().state = ActionState::None;
         fire(aid, "EStarted", t.entity(), &mut commands, reacts, slots);
     });
-    world.add_observer(move |t: Trigger<Ongoing<A>>, log: Res<SharedLog>, mut commands: Commands, reacts: Option<ResMut<Reactions>>, slots: Option<Res<Slots>>| {
+    world.add_observer(move |mut t: Trigger<Ongoing<A>>, log: Res<SharedLog>, mut commands: Commands, reacts: Option<ResMut<Reactions>>, slots: Option<Res<Slots>>| {
         let e = t.event();
         log.push(LogItem::Ev { target: t.entity(), aid, kind: "EOngoing", value: e.value.into(), state: e.state, elapsed: Some(e.elapsed_secs), fired: None });
+        // every recipient gets its OWN copy of the event: what this observer does to its copy (legal through
+        // Trigger::event_mut) must not show in the payload any other recipient sees
+        t.event_mut().state = ActionState::None;
         fire(aid, "EOngoing", t.entity(), &mut commands, reacts, slots);
     });
-    world.add_observer(move |t: Trigger<Fired<A>>, log: Res<SharedLog>, mut commands: Commands, reacts: Option<ResMut<Reactions>>, slots: Option<Res<Slots>>| {
+    world.add_observer(move |mut t: Trigger<Fired<A>>, log: Res<SharedLog>, mut commands: Commands, reacts: Option<ResMut<Reactions>>, slots: Option<Res<Slots>>| {
         let e = t.event();
         log.push(LogItem::Ev { target: t.entity(), aid, kind: "EFired", value: e.value.into(), state: e.state, elapsed: Some(e.elapsed_secs), fired: Some(e.fired_secs) });
+        // every recipient gets its OWN copy of the event: what this observer does to its copy (legal through
+        // Trigger::event_mut) must not show in the payload any other recipient sees
+        t.event_mut().state = ActionState::None;
         fire(aid, "EFired", t.entity(), &mut commands, reacts, slots);
     });
-    world.add_observer(move |t: Trigger<Canceled<A>>, log: Res<SharedLog>, mut commands: Commands, reacts: Option<ResMut<Reactions>>, slots: Option<Res<Slots>>| {
+    world.add_observer(move |mut t: Trigger<Canceled<A>>, log: Res<SharedLog>, mut commands: Commands, reacts: Option<ResMut<Reactions>>, slots: Option<Res<Slots>>| {
         let e = t.event();
         log.push(LogItem::Ev { target: t.entity(), aid, kind: "ECanceled", value: e.value.into(), state: e.state, elapsed: Some(e.elapsed_secs), fired: None });
+        // every recipient gets its OWN copy of the event: what this observer does to its copy (legal through
+        // Trigger::event_mut) must not show in the payload any other recipient sees
+        t.event_mut().state = ActionState::None;
         fire(aid, "ECanceled", t.entity(), &mut commands, reacts, slots);
     });
-    world.add_observer(move |t: Trigger<Completed<A>>, log: Res<SharedLog>, mut commands: Commands, reacts: Option<ResMut<Reactions>>, slots: Option<Res<Slots>>| {
+    world.add_observer(move |mut t: Trigger<Completed<A>>, log: Res<SharedLog>, mut commands: Commands, reacts: Option<ResMut<Reactions>>, slots: Option<Res<Slots>>| {
         let e = t.event();
         log.push(LogItem::Ev { target: t.entity(), aid, kind: "ECompleted", value: e.value.into(), state: e.state, elapsed: Some(e.elapsed_secs), fired: Some(e.fired_secs) });
+        // every recipient gets its OWN copy of the event: what this observer does to its copy (legal through
+        // Trigger::event_mut) must not show in the payload any other recipient sees
+        t.event_mut().state = ActionState::None;
         fire(aid, "ECompleted", t.entity(), &mut commands, reacts, slots);
     });
 }
@@ -290,57 +305,60 @@ pub fn perm(n: usize, k: u64) -> Vec<usize> {
     out
 }
 
+/// A built-in condition kept with its static type, so that cloning it (the `*_each` helpers clone their conditions for
+/// every element) goes through the crate's OWN `Clone` implementation, not through a rebuild from the case text.
+#[derive(Clone)]
+pub enum TypedCond {
+    Press(Press),
+    JustPress(JustPress),
+    Release(Release),
+    Hold(Hold),
+    HoldAndRelease(HoldAndRelease),
+    Tap(Tap),
+    Pulse(Pulse),
+}
+impl TypedCond {
+    pub fn evaluate(&mut self, a: &ActionsData, t: &Time<Virtual>, v: ActionValue) -> ActionState {
+        match self {
+            TypedCond::Press(c) => c.evaluate(a, t, v),
+            TypedCond::JustPress(c) => c.evaluate(a, t, v),
+            TypedCond::Release(c) => c.evaluate(a, t, v),
+            TypedCond::Hold(c) => c.evaluate(a, t, v),
+            TypedCond::HoldAndRelease(c) => c.evaluate(a, t, v),
+            TypedCond::Tap(c) => c.evaluate(a, t, v),
+            TypedCond::Pulse(c) => c.evaluate(a, t, v),
+        }
+    }
+    pub fn kind(&self) -> ConditionKind {
+        match self {
+            TypedCond::Press(c) => c.kind(),
+            TypedCond::JustPress(c) => c.kind(),
+            TypedCond::Release(c) => c.kind(),
+            TypedCond::Hold(c) => c.kind(),
+            TypedCond::HoldAndRelease(c) => c.kind(),
+            TypedCond::Tap(c) => c.kind(),
+            TypedCond::Pulse(c) => c.kind(),
+        }
+    }
+    pub fn into_boxed(self) -> Box<dyn InputCondition> {
+        match self {
+            TypedCond::Press(c) => Box::new(c),
+            TypedCond::JustPress(c) => Box::new(c),
+            TypedCond::Release(c) => Box::new(c),
+            TypedCond::Hold(c) => Box::new(c),
+            TypedCond::HoldAndRelease(c) => Box::new(c),
+            TypedCond::Tap(c) => Box::new(c),
+            TypedCond::Pulse(c) => Box::new(c),
+        }
+    }
+}
+
 pub fn parse_cond(s: &Sx) -> Box<dyn InputCondition> {
+    if let Some(t) = parse_cond_typed(s) {
+        return t.into_boxed();
+    }
     let (h, a) = s.app();
     match h {
-        "c_press" => Box::new(Press::new(a[0].f())),
-        "c_just_press" => Box::new(JustPress::new(a[0].f())),
-        "c_release" => Box::new(Release::new(a[0].f())),
-        // the builder methods are applied in an order derived from the text of the condition: every order must
-        // configure the same condition
-        "c_hold" => {
-            let mut c = Hold::new(a[0].f());
-            for i in perm(3, text_hash(s)) {
-                c = match i {
-                    0 => c.one_shot(a[1].boolean()),
-                    1 => c.with_actuation(a[2].f()),
-                    _ => c.relative_speed(a[3].boolean()),
-                };
-            }
-            Box::new(c)
-        }
-        "c_hold_and_release" => {
-            let mut c = HoldAndRelease::new(a[0].f());
-            for i in perm(2, text_hash(s)) {
-                c = match i {
-                    0 => c.with_actuation(a[1].f()),
-                    _ => c.relative_speed(a[2].boolean()),
-                };
-            }
-            Box::new(c)
-        }
-        "c_tap" => {
-            let mut c = Tap::new(a[0].f());
-            for i in perm(2, text_hash(s)) {
-                c = match i {
-                    0 => c.with_actuation(a[1].f()),
-                    _ => c.relative_speed(a[2].boolean()),
-                };
-            }
-            Box::new(c)
-        }
-        "c_pulse" => {
-            let mut c = Pulse::new(a[0].f());
-            for i in perm(4, text_hash(s)) {
-                c = match i {
-                    0 => c.with_trigger_limit(a[1].int() as u32),
-                    1 => c.trigger_on_start(a[2].boolean()),
-                    2 => c.with_actuation(a[3].f()),
-                    _ => c.relative_speed(a[4].boolean()),
-                };
-            }
-            Box::new(c)
-        }
         "c_chord" => with_action!(a[0].int() as usize, A => Box::new(Chord::<A>::default())),
         "c_block_by" => {
             let eo = a[1].boolean();
@@ -353,6 +371,61 @@ pub fn parse_cond(s: &Sx) -> Box<dyn InputCondition> {
         }),
         o => panic!("bad cond {o}"),
     }
+}
+
+pub fn parse_cond_typed(s: &Sx) -> Option<TypedCond> {
+    let (h, a) = s.app();
+    Some(match h {
+        "c_press" => TypedCond::Press(Press::new(a[0].f())),
+        "c_just_press" => TypedCond::JustPress(JustPress::new(a[0].f())),
+        "c_release" => TypedCond::Release(Release::new(a[0].f())),
+        // the builder methods are applied in an order derived from the text of the condition: every order must
+        // configure the same condition
+        "c_hold" => {
+            let mut c = Hold::new(a[0].f());
+            for i in perm(3, text_hash(s)) {
+                c = match i {
+                    0 => c.one_shot(a[1].boolean()),
+                    1 => c.with_actuation(a[2].f()),
+                    _ => c.relative_speed(a[3].boolean()),
+                };
+            }
+            TypedCond::Hold(c)
+        }
+        "c_hold_and_release" => {
+            let mut c = HoldAndRelease::new(a[0].f());
+            for i in perm(2, text_hash(s)) {
+                c = match i {
+                    0 => c.with_actuation(a[1].f()),
+                    _ => c.relative_speed(a[2].boolean()),
+                };
+            }
+            TypedCond::HoldAndRelease(c)
+        }
+        "c_tap" => {
+            let mut c = Tap::new(a[0].f());
+            for i in perm(2, text_hash(s)) {
+                c = match i {
+                    0 => c.with_actuation(a[1].f()),
+                    _ => c.relative_speed(a[2].boolean()),
+                };
+            }
+            TypedCond::Tap(c)
+        }
+        "c_pulse" => {
+            let mut c = Pulse::new(a[0].f());
+            for i in perm(4, text_hash(s)) {
+                c = match i {
+                    0 => c.with_trigger_limit(a[1].int() as u32),
+                    1 => c.trigger_on_start(a[2].boolean()),
+                    2 => c.with_actuation(a[3].f()),
+                    _ => c.relative_speed(a[4].boolean()),
+                };
+            }
+            TypedCond::Pulse(c)
+        }
+        _ => return None,
+    })
 }
 
 // ---------------------------------------------------------------------------------------------
